@@ -73,6 +73,12 @@ func (r *ContentReader) readNextLine() (err error) {
 	r.lineno++
 	r.parseComments()
 	r.lines = append(r.lines, strings.TrimSuffix(string(r.buf), "\n"))
+	// yaml.v3 attaches comments to different nodes when lines end with CRLF (a comment line after a flow style
+	// mapping, all but the first line of a comment block after the last field of a mapping), give it LF line
+	// endings; r.lines keeps the original bytes so positions are unchanged.
+	if n := len(r.buf); n >= 2 && r.buf[n-2] == '\r' && r.buf[n-1] == '\n' {
+		r.buf = append(r.buf[:n-2], '\n')
+	}
 	return err
 }
 
